@@ -3,7 +3,7 @@ import spec
 from spec import hex_of, bits_of
 
 OBLIGATION_MODULES = ["PyModeS.Properties.C02"]
-TIE_MODULES = ['PyModeS.Tie.Basic', 'PyModeS.Tie.Common', 'PyModeS.Tie.Surv', 'PyModeS.Tie.Crc', 'PyModeS.Tie.C0278Gen']
+TIE_MODULES = ['PyModeS.Tie.Basic', 'PyModeS.Tie.Common', 'PyModeS.Tie.Icao', 'PyModeS.Tie.Surv', 'PyModeS.Tie.Crc', 'PyModeS.Tie.C0278Gen']
 MAIN_THEOREM = "PyModeS.C02.icao_AA / icao_AP / icao_none_otherwise / icao_canonical"
 RULE = ("DF 0..31 x {56,112} bits x {upper, lower, mixed} hex case x addresses (incl. 000000, FFFFFF, letters-only, digits-only) "
         "with random payloads; non-trivial = an address is expected (not None)")
@@ -26,8 +26,49 @@ def oracle_ap_frame(dhex, a):
     return hex_of(spec.with_parity(d, a))
 
 
+_DEC = None
+
+
+def acs_keys(seq):
+    """keys of Decode.acs after a sequence of [kind, t, msg] items (one process_raw call each); also whether every
+    Comm-B reply for a listed aircraft refreshed it"""
+    global _DEC
+    import contextlib
+    import io
+    if _DEC is None:
+        with contextlib.redirect_stdout(io.StringIO()):
+            from pyModeS.streamer import decode as _d
+        _DEC = _d
+    d = _DEC.Decode()
+    for kind, t, m in seq:
+        if kind == "adsb":
+            d.process_raw([t], [m], [], [], t)
+        else:
+            d.process_raw([], [], [t], [m], t)
+    acs = d.get_aircraft()
+    return ",".join(sorted(str(k) for k in acs)) + "|" + ",".join(str(acs[k]["live"]) for k in sorted(acs, key=str))
+
+
 def cases(ctx):
     rng = ctx.rng
+    # the aircraft table is keyed by icao(msg): one transponder = one key, whatever the letter case of the feed and
+    # whatever the downlink format of the reply (squitter in any case, then a Comm-B reply, then a squitter again)
+    for _ in range(ctx.n(150, 1500)):
+        a = rng.getrandbits(24) | rng.choice([0xA00000, 0x00B000, 0x00000C, 0xF0F0F0])
+        seq, t = [], 100
+        for k in range(rng.randrange(2, 6)):
+            case = rng.choice(["upper", "lower", "mixed"])
+            if k == 0 or rng.random() < 0.5:
+                f = spec.adsb_frame(rng, rng.choice([1, 2, 3, 4, 19, 28, 29, 31]), [], df=rng.choice([17, 18]), icao=a)
+                kind = "adsb"
+            else:
+                f = spec.df_frame(rng, rng.choice([20, 21]), 112, [], overlay_addr=a)
+                kind = "commb"
+            m = hex_of(f)
+            m = m.lower() if case == "lower" else (spec.mixcase(rng, m) if case == "mixed" else m)
+            t += rng.randrange(1, 20)
+            seq.append([kind, t, m])
+        yield dict(op=None, real=("h:props.C02.acs_keys", [seq]), expect="%06X|%d" % (a, t), tag="decode-acs-key", stateful=True)
     for _ in range(400):
         n = rng.choice([56, 112])
         d = spec.background(rng, n - 24)
